@@ -164,10 +164,11 @@ class Term:
 
 
 class Block:
-    __slots__ = ("i", "cleanup", "stmts", "term")
+    __slots__ = ("i", "cleanup", "stmts", "term", "cloned_from")
 
     def __init__(self, i, j):
         self.i = i
+        self.cloned_from = j.get("cloned_from")     # normalize.thread_try: this block is a path-specific copy of that block
         self.cleanup = j["cleanup"]
         self.stmts = [Stmt(s) for s in j["stmts"] if s["k"] in ("assign", "setdiscr")]
         self.term = Term(j["term"])
@@ -236,6 +237,8 @@ class Body:
         if self._defs is None:
             d = {}
             for b in self.blocks:
+                if b.cloned_from is not None:
+                    continue      # the same statements as the block it copies: they define the same values, not further ones
                 for i, s in enumerate(b.stmts):
                     if s.lhs is not None:
                         kind = "whole" if not s.lhs[1] else ("through" if any(e[0] == "*" for e in s.lhs[1]) else "partial")
